@@ -952,7 +952,10 @@ func opReferenceChangeJournal(ctx context.Context, pc *uint64, interpreter *EVMI
 	}
 
 	u64Ceiling := func(nom, denom uint64) uint64 {
-		return (nom + denom - 1) / denom
+		if nom%denom == 0 {
+			return nom / denom
+		}
+		return nom/denom + 1
 	}
 
 	keccak := func(interpreter *EVMInterpreter, data []byte) []byte {
@@ -984,12 +987,15 @@ func opReferenceChangeJournal(ctx context.Context, pc *uint64, interpreter *EVMI
 		// in-place encoding: the content occupies the high-order bytes of the slot, leading zero bytes included
 		stateBytes = common.CopyBytes(rawState[:length])
 	} else {
-		referenceSlot := new(uint256.Int).SetBytes(keccak(interpreter, storageSlot.Bytes()))
+		// the data area starts at keccak256 of the 32-byte slot number
+		slotKey := storageSlot.Bytes32()
+		referenceSlot := new(uint256.Int).SetBytes(keccak(interpreter, slotKey[:]))
 		for i := uint64(0); i < u64Ceiling(length, 32); i++ {
-			offset := referenceSlot.Add(referenceSlot, one).Bytes32()
-			currentRawState := interpreter.evm.StateDB.GetState(contract, offset)
+			currentRawState := interpreter.evm.StateDB.GetState(contract, referenceSlot.Bytes32())
 			stateBytes = append(stateBytes, currentRawState[:]...)
+			referenceSlot.Add(referenceSlot, one)
 		}
+		stateBytes = stateBytes[:length]
 	}
 
 	err = interpreter.tracer.SaveStateChange(contract, &storageSlot, nil, typeId.Bytes32(), stateBytes)
